@@ -1225,6 +1225,10 @@ class Structure(UniqueMixin, metaclass=StructMeta):
         for name, value in self.__dict__.items():
             if name not in fields_by_name and name not in _internal_props:
                 state[name] = value
+        # the fields explicitly set to None (_enable_undefined_value) are part of the instance as well
+        none_fields = self.__dict__.get("_none_fields")
+        if none_fields:
+            state["_none_fields"] = set(none_fields)
         return state
 
     def __setstate__(self, state):
